@@ -530,3 +530,41 @@ func VH_C19_ConsumerOffsets(P int) {
 	}
 	vhReach("c19-consumer-offsets")
 }
+
+// Conn.ReadPartitions without a topic - called with no argument or with an empty, non-nil list - asks the broker for
+// every topic (null array on the wire; a zero-length array would mean "no topic") and returns the cluster's
+// partitions; with a topic bound to the connection it asks for that topic.
+func VH_C19_ReadPartitionsRequest(version, variant int) {
+	leader := vhInt32("leader")
+	f1 := vhApiVersionsFrame(1, []vhApiRange{{int16(metadata), 0, int16(version)}})
+	f2 := vhMetadataResponse(2, version, "t", 0, 0, leader)
+	fc := &vhFakeConn{data: append(append([]byte{}, f1...), f2...)}
+	cfg := ConnConfig{ClientID: "vh"}
+	if variant == 2 {
+		cfg.Topic = "t"
+	}
+	c := NewConnWith(fc, cfg)
+	var parts []Partition
+	var err error
+	if variant == 1 {
+		parts, err = c.ReadPartitions([]string{}...)
+	} else {
+		parts, err = c.ReadPartitions()
+	}
+	vhAssert(err == nil && len(parts) == 1, "read-partitions-returns-the-clusters-partitions")
+	if len(parts) == 1 {
+		vhAssert(vhAll(parts[0].Topic == "t", parts[0].ID == 0, parts[0].Leader.ID == int(leader), len(parts[0].Replicas) == 1, len(parts[0].Isr) == 1), "partition-values-are-the-brokers")
+	}
+	// second request on the wire: metadata; after the header (size 4, key 2, version 2, corr 4, client id 2+2) the
+	// topics array
+	w := fc.written
+	first := 4 + int(vhBE32(w))
+	body := w[first+4+2+2+4+2+2:]
+	n := vhBE32(body)
+	if variant == 2 {
+		vhAssert(n == 1, "bound-topic-is-asked-for")
+	} else {
+		vhAssert(n == -1, "all-topics-are-asked-for-with-a-null-array")
+	}
+	vhReach("c19-read-partitions-request")
+}
